@@ -487,6 +487,10 @@ pub struct PollRun<F: Family> {
     pub polls: usize,
     pub reads_at_end: usize,
     pub final_state_is_header: bool,
+    /// transient transport failures (sio::Step::Fail) after which the caller polled again with the same state
+    pub resumed_after_error: u32,
+    /// a poll in which the transport reported a transient failure did not return that failure
+    pub transient_not_surfaced: Option<String>,
 }
 
 /// Runs the poll decoder by hand over a scripted transport.
@@ -525,6 +529,11 @@ pub fn dec_poll_styled<F: Family>(
     reader.fault = fault;
     reader.keep_log = keep_log;
     let pend = reader.pendings.clone();
+    let transients = reader.transients.clone();
+    let last_transient = reader.last_transient.clone();
+    let mut seen_transients = 0u64;
+    let mut resumed_after_error = 0u32;
+    let mut transient_not_surfaced: Option<String> = None;
     let mut state: GenericPollPacketState<F::Header> = GenericPollPacketState::default();
     let waker = sio::noop_waker();
     let mut cx = Context::from_waker(&waker);
@@ -542,8 +551,29 @@ pub fn dec_poll_styled<F: Family>(
             }
             let before = pend.get();
             match std::pin::Pin::new(&mut fut).poll(&mut cx) {
-                Poll::Ready(r) => break 'outer r,
+                Poll::Ready(r) => {
+                    // a transient failure reported by the transport in this very poll (sio::Step::Fail): the
+                    // decoder has to hand it on; the caller then polls again with the state it holds
+                    if transients.get() > seen_transients {
+                        seen_transients = transients.get();
+                        let surfaced = match &r {
+                            Err(e) => matches!(F::common(e), Some(mqtt_proto::Error::IoError(k, _)) if *k == last_transient.get()),
+                            Ok(_) => false,
+                        };
+                        if !surfaced {
+                            transient_not_surfaced = Some(format!("{:?} (the transport failed with {:?})", r.as_ref().map(|x| x.0), last_transient.get()));
+                            break 'outer r;
+                        }
+                        resumed_after_error += 1;
+                        continue 'outer;
+                    }
+                    break 'outer r;
+                }
                 Poll::Pending => {
+                    if transients.get() > seen_transients {
+                        seen_transients = transients.get();
+                        transient_not_surfaced = Some("Pending".to_string());
+                    }
                     if pend.get() == before {
                         spurious = true;
                     }
@@ -580,6 +610,8 @@ pub fn dec_poll_styled<F: Family>(
         polls,
         reads_at_end: reader.reads_at_end,
         final_state_is_header,
+        resumed_after_error,
+        transient_not_surfaced,
     }
 }
 
